@@ -35,12 +35,12 @@ K_OVR = "replicate:aggregate-with-platform-override-of-references"
 
 def S(names, stages=(0,), reps=("none", "n2"), aggs=(True, False), spell=("rel", "abs"), paths=("",), methods=("ref",),
       styles=("same",), orders=("fwd",), comps=3, refs=2, fixed=False, graph=1, priv=(0,), aggvar=(False,), sv0=(0,), sv1=(2,), same=1,
-      plat=(0,), pg=(0,), ps0=(0,), ps1=(0,), ovr=False):
+      plat=(0,), pg=(0,), ps0=(0,), ps1=(0,), ovr=False, opriv=(0,)):
     """ovr: every consumer also carries a platform override that repeats its references / arguments (same meaning)"""
     """graph: 1 = every case also through graphFromFlowIR, k = every k-th case"""
     return dict(names=names, stages=stages, reps=reps, aggs=aggs, spell=spell, paths=paths, methods=methods, styles=styles,
                 orders=orders, comps=comps, refs=refs, fixed=fixed, graph=graph, priv=priv, aggvar=aggvar, sv0=sv0, sv1=sv1, same=same,
-                plat=plat, pg=pg, ps0=ps0, ps1=ps1, ovr=ovr)
+                plat=plat, pg=pg, ps0=ps0, ps1=ps1, ovr=ovr, opriv=opriv)
 
 
 SLICES = {
@@ -58,6 +58,9 @@ SLICES = {
         # document holds the other platform's definitions also when the default platform is loaded)
         "platform": S(["p", "q"], stages=(0, 1), reps=("none", "vg", "vs"), spell=("abs",), comps=2, refs=1, fixed=True,
                       aggvar=(False, True), sv0=(0, 2), sv1=(0, 2), plat=(0, 1), pg=(0, 3), ps0=(0, 1), ps1=(0,), graph=4),
+        # the component's OVERRIDE for platform "other" also defines the variable (highest priority, only when "other" is loaded)
+        "ovrvars": S(["p", "q"], stages=(0,), reps=("none", "vg", "vc"), spell=("rel",), comps=2, refs=1, fixed=True,
+                     aggvar=(False, True), priv=(0, 3), opriv=(0, 1), plat=(0, 1), pg=(0, 3), graph=4),
         # the same with a platform override that repeats the references / arguments of every consumer
         "override": S(["p", "q", "r"], stages=(0, 1), reps=("none", "n2"), spell=("rel", "abs"), refs=2, fixed=True,
                       plat=(0, 1), ovr=True, graph=8),
@@ -102,6 +105,8 @@ SLICES = {
                       aggvar=(False, True), sv0=(0, 2), sv1=(0, 2), plat=(0, 1), pg=(0, 1, 3), ps0=(0, 1), ps1=(0, 3), graph=8),
         "override": S(["p", "q", "r"], stages=(0, 1), reps=("none", "n2", "n3"), spell=("rel", "abs"), refs=2, fixed=True,
                       plat=(0, 1), ovr=True, graph=8),
+        "ovrvars": S(["p", "q"], stages=(0, 1), reps=("none", "vg", "vs", "vc"), spell=("abs",), comps=2, refs=1, fixed=True,
+                     aggvar=(False, True), priv=(0, 3), opriv=(0, 1, 2), plat=(0, 1), pg=(0, 3), ps0=(0, 1), sv0=(0, 2), graph=8),
         "platform3": S(["p", "q", "r"], stages=(0, 1), reps=("none", "vs"), spell=("abs",), refs=1, fixed=True,
                        sv0=(0, 2), sv1=(0,), plat=(0, 1), pg=(0, 3), ps0=(0, 1), ps1=(0,), graph=8),
         "scopes": S(["p", "q"], stages=(0, 1), reps=("none", "n2", "vg", "vs", "vc"), spell=("abs",), comps=2, refs=1, fixed=True,
@@ -130,13 +135,13 @@ def _set(xs):
 def write_cfg(path, sl, emit, invariants, spec_props=""):
     body = ("CONSTANTS\n  Names = %s\n  Stages = %s\n  RepChoices = %s\n  AggChoices = %s\n  Spellings = %s\n  Paths = %s\n"
             "  Methods = %s\n  ArgStyles = %s\n  DocOrders = %s\n  MaxComps = %d\n  MaxRefs = %d\n  FixedNames = %s\n  Emit = %s\n"
-            "  PrivChoices = %s\n  AggVarChoices = %s\n  StageVals0 = %s\n  StageVals1 = %s\n  MaxSame = %d\n"
+            "  OvrPrivChoices = %s\n  PrivChoices = %s\n  AggVarChoices = %s\n  StageVals0 = %s\n  StageVals1 = %s\n  MaxSame = %d\n"
             "  Platforms = %s\n  PlatGlobalVals = %s\n  PlatStageVals0 = %s\n  PlatStageVals1 = %s\n  MsgStageVals = {0}\n"
             "SPECIFICATION Spec\n%sCHECK_DEADLOCK FALSE\n" % (
                 _set(sl["names"]), _set(sl["stages"]), _set(sl["reps"]), _set(sl["aggs"]), _set(sl["spell"]), _set(sl["paths"]),
                 _set(sl["methods"]), _set(sl["styles"]), _set(sl["orders"]), sl["comps"], sl["refs"],
                 "TRUE" if sl["fixed"] else "FALSE", "TRUE" if emit else "FALSE",
-                _set(sl["priv"]), _set(sl["aggvar"]), _set(sl["sv0"]), _set(sl["sv1"]), sl["same"],
+                _set(sl["opriv"]), _set(sl["priv"]), _set(sl["aggvar"]), _set(sl["sv0"]), _set(sl["sv1"]), sl["same"],
                 _set(sl["plat"]), _set(sl["pg"]), _set(sl["ps0"]), _set(sl["ps1"]),
                 "".join("INVARIANT %s\n" % i for i in invariants)))
     with open(path, "w") as f:
@@ -199,6 +204,8 @@ def classify(case):
         feats.append("variable")
     if any(c.get("pv") for c in comps):
         feats.append("private-variables")
+    if any(c.get("ov") for c in comps):
+        feats.append("override-variables")
     sv = list(case.get("sv") or []) + [0] * 6
     if sv[2] == 1:
         feats.append("platform")
